@@ -1082,3 +1082,46 @@ func (x *Exec) atomsOf(v Val, e *cfront.Node) []Atom {
 	l, lc := operandStr(v)
 	return []Atom{{Op: "nz", L: l, LC: lc, Holds: true, Node: pos}}
 }
+
+// RunFunc interprets one function on its own (not a program entry): pointer parameters that name packet memory are
+// bound to a packet pointer at an unknown non-negative offset, `void *data_end` to the end marker, pointers to
+// records to fresh stack objects, integers to fresh symbols.  Used to extract the decision table of a helper.
+func (x *Exec) RunFunc(fn *cfront.Node) {
+	st := newState()
+	st.iv[atomEnd] = Interval{0, 1 << 20}
+	st.iv[atomBase] = Interval{0, posInf}
+	x.curFn = fn.Name
+	var body *cfront.Node
+	for _, c := range fn.Inner {
+		switch c.Kind {
+		case "ParmVarDecl":
+			reg := x.stackRegion(c)
+			t, err := cfront.ParseType(c.Desugared())
+			var v Val
+			switch {
+			case err != nil:
+				v = Val{K: VUnk}
+			case t.Kind == "ptr" && strings.Contains(c.Name, "end"):
+				v = Val{K: VEnd}
+			case t.Kind == "ptr" && t.Elem.Kind == "record":
+				sz, _ := x.TU.SizeOf(t.Elem)
+				v = Val{K: VPtr, Reg: x.region(RStack, "arg:"+c.Name, sz), L: lin.Const(0)}
+			case t.Kind == "ptr":
+				off := x.fresh(st, Interval{0, 1 << 16})
+				v = Val{K: VPtr, Reg: x.region(RPkt, "pkt", -1), L: lin.Var(off), Lbl: "arg:" + c.Name, LblOK: true}
+			default:
+				w, sg := intInfo(t)
+				v = x.freshInt(st, w, sg, "arg:"+c.Name)
+			}
+			sz := reg.Size
+			if sz < 0 {
+				sz = 8
+			}
+			x.storeCell(st, reg, 0, sz, v)
+		case "CompoundStmt":
+			body = c
+		}
+	}
+	x.stack = []string{fn.Name}
+	x.execStmt(body, []*State{st})
+}
